@@ -206,10 +206,11 @@ func (ns *NodeNameSpace) Browse(bd *ua.BrowseDescription) *ua.BrowseResult {
 		return &ua.BrowseResult{StatusCode: ua.StatusBadNodeIDUnknown}
 	}
 
-	refs := make([]*ua.ReferenceDescription, 0, len(n.refs))
+	nrefs := n.references()
+	refs := make([]*ua.ReferenceDescription, 0, len(nrefs))
 
-	for i := range n.refs {
-		r := n.refs[i]
+	for i := range nrefs {
+		r := nrefs[i]
 		// we can't have nils in these or the encoder will fail.
 		if r.NodeID == nil || r.BrowseName == nil || r.DisplayName == nil || r.TypeDefinition == nil {
 			continue
